@@ -467,14 +467,33 @@ fn check_case(repo: &dyn Repo, g: &G, carry: &Carry, commits: &[Commit], ids: &[
         } else {
             info.err_lines += 1;
             if s & bit(o.node) != 0 {
-                // known shape: an unsearched parent is a missing-edge target of two searched
-                // commits (process_commit counts it twice as an unresolved root and the walk
-                // stops early, leaving the initial Err(start, line) in place)
+                // known shapes: an unsearched parent is counted twice as an unresolved root by
+                // process_commit, either because it is a missing-edge target of two searched
+                // commits, or because one searched commit has two missing edges to it (it is a
+                // parent of that commit and also a parent of a hidden, live parent: the walk
+                // does not de-duplicate that case); the walk then stops early and the initial
+                // Err(start, line) stays in place
                 let shared = refs.iter().any(|(c1, r1)| refs.iter().any(|(c2, r2)| c1 < c2 && r1.missing & r2.missing != 0));
+                let twice = refs.keys().any(|&c| {
+                    let dead_parents = g.parents[c].iter().filter(|&&p| s & bit(p) == 0 && g.anc[p] & s == 0).fold(0, |a, &p| a | bit(p));
+                    let mut inherited = RefNode::default();
+                    for &p in &g.parents[c] {
+                        if s & bit(p) == 0 && g.anc[p] & s != 0 {
+                            inherited.missing |= reference_node(g, s, p).missing;
+                        }
+                    }
+                    dead_parents & inherited.missing != 0
+                });
                 let clause = format!(
                     "unresolved/inside-searched-range/{}{}",
                     if o.node == start && o.line == i { "initial-origin-left-at-start" } else { "other" },
-                    if shared { "/unsearched-parent-shared-by-two-searched-commits" } else { "" }
+                    if shared {
+                        "/unsearched-parent-shared-by-two-searched-commits"
+                    } else if twice {
+                        "/unsearched-parent-reached-twice-from-one-searched-commit"
+                    } else {
+                        ""
+                    }
                 );
                 return Err(fail(&clause, format!("line {i} is left unresolved at n{}, which is in the searched set {:?}", o.node, nodes_of(s))));
             }
@@ -694,7 +713,7 @@ fn parent_choices(i: usize) -> Vec<Vec<usize>> {
         .collect()
 }
 
-/// One shard = one repository = all histories that start with `prefix` (1 or 2 nodes).
+/// One shard = one repository = all histories that start with `prefix` (up to 3 nodes).
 fn run_shard(run: &Run, plan: &Plan, prefix: &[(Vec<usize>, usize)], check_prefixes_from: usize) {
     let test_repo = TestRepo::init_with_backend(testutils::TestRepoBackend::Simple);
     let repo0 = test_repo.repo.clone();
@@ -723,23 +742,29 @@ fn run_shard(run: &Run, plan: &Plan, prefix: &[(Vec<usize>, usize)], check_prefi
 }
 
 fn run_plan(run: &Run, plan: &Plan) {
-    // shards: every prefix of min(2, n) nodes; the 1-node prefix is checked by the shard whose
-    // second node is the first choice
-    let depth = plan.n.min(2);
+    // Shards: every prefix of d = min(3, n - 1) nodes gets its own repository (a repository with
+    // many thousands of heads makes every revset evaluation slow). A shorter prefix (k < d
+    // nodes) is checked by the first shard that extends it, i.e. the one whose choices after
+    // position k are all the first ones.
+    let depth = plan.n.saturating_sub(1).clamp(1, 3);
     let mut shards: Vec<(Vec<(Vec<usize>, usize)>, usize)> = vec![];
-    for &v1 in &plan.alphabet {
-        if depth == 1 {
-            shards.push((vec![(vec![0], v1)], 1));
-            continue;
+    fn rec(plan: &Plan, depth: usize, prefix: &mut Vec<(Vec<usize>, usize)>, last_nonzero: usize, out: &mut Vec<(Vec<(Vec<usize>, usize)>, usize)>) {
+        if prefix.len() == depth {
+            out.push((prefix.clone(), last_nonzero.max(1)));
+            return;
         }
-        let mut first = true;
-        for ps in parent_choices(2) {
-            for &v2 in &plan.alphabet {
-                shards.push((vec![(vec![0], v1), (ps.clone(), v2)], if first { 1 } else { 2 }));
-                first = false;
+        let pos = prefix.len() + 1;
+        let mut idx = 0;
+        for ps in parent_choices(pos) {
+            for &v in &plan.alphabet {
+                prefix.push((ps.clone(), v));
+                rec(plan, depth, prefix, if idx == 0 { last_nonzero } else { pos }, out);
+                prefix.pop();
+                idx += 1;
             }
         }
     }
+    rec(plan, depth, &mut vec![], 0, &mut shards);
     shards.par_iter().for_each(|(prefix, from)| run_shard(run, plan, prefix, *from));
 }
 
